@@ -109,6 +109,29 @@ func (ec *exifCase) linkedRoot() *gen.Dir {
 		}
 		root.Sort()
 		ec.rec.IFD0.Sort()
+		if ec.lseed%4 == 0 {
+			// a second directory chained to the first (IFD1, the thumbnail): its own width, height,
+			// orientation, strips and texts describe the thumbnail, not the image
+			tr := core.NewRng(ec.lseed, 77)
+			th := &gen.Dir{Kind: gen.KOther}
+			th.Add(0x0100, gen.Short(uint16(tr.Pick(160, 120, 1))))
+			th.Add(0x0101, gen.Short(uint16(tr.Pick(120, 90, 2))))
+			th.Add(0x0103, gen.Short(6))
+			th.Add(0x0112, gen.Short(uint16(tr.Range(1, 8))))
+			if tr.Bool() {
+				th.Add(0x0111, gen.Long(uint32(tr.Range(200, 9000))))
+				th.Add(0x0117, gen.Long(uint32(tr.Range(1, 9000))))
+			}
+			if tr.Bool() {
+				th.Add(0x010f, gen.ASCII("thumbnail maker"))
+				th.Add(0x0110, gen.ASCII("thumbnail model"))
+				th.Add(0x0131, gen.ASCII("thumbnail software"))
+			}
+			th.Add(0x0201, gen.Long(uint32(tr.Range(200, 9000))))
+			th.Add(0x0202, gen.Long(uint32(tr.Range(1, 9000))))
+			th.Sort()
+			root.Next = th
+		}
 		ec.root = root
 		ec.assembled = true
 	}
